@@ -35,6 +35,7 @@ def configs(tier, seed):
             out.append(dict(signed=s, n_word=n, n_frac=n // 2, shape=[2], mode='value'))
             if tier == 'thorough' or n == 3:
                 out.append(dict(signed=s, n_word=n, n_frac=0, shape=[2, 2], mode='value'))
+                out.append(dict(signed=s, n_word=n, n_frac=0, shape=[2, 2], mode='value', age='transposed'))     # (the .T of an object: column-major buffer)
     for n in ((64,) if tier == 'quick' else (64, 65, 100, 128)):
         for s in ((True, False) if tier == 'thorough' else (rng.choice((True, False)),)):
             out.append(dict(signed=s, n_word=n, n_frac=rng.choice((0, n // 2, n)), shape=[], mode='raw'))
